@@ -8,3 +8,10 @@ static inline const char *vstr_c_str(const vstr *w) { return w->ptr; }
 /* getRuleInfoForKey(const KeyType&): the record of the requested key */
 static inline struct BuildEngineImpl_RuleInfo *BuildEngineImpl_getRuleInfoForKey(struct BuildEngineImpl *self, keyt key) { return g_ri_a; }
 static inline void verif_queue_reset(struct ExecutionQueue **q) { __CPROVER_assert(g_engine->executionQueueMutex.held, "[P:C05] the execution queue pointer is released only with executionQueueMutex held"); *q = 0; }
+unsigned g_cd_notified, g_cancel_all;
+static inline void verif_cd_notify(struct CancellationDelegate *d) { g_cd_notified++; }
+/* ExecutionQueue::cancelAllJobs(): may only run while the queue cannot be released (build() resets the queue pointer under executionQueueMutex) */
+static inline void verif_cancel_all(struct ExecutionQueue *q) {
+  __CPROVER_assert(g_engine->executionQueueMutex.held, "[P:C05,P:C06] the execution queue is asked to cancel its jobs only with executionQueueMutex held (it cannot be torn down meanwhile)");
+  __CPROVER_assert(q == g_engine->executionQueue, "[P:C05] the queue that is cancelled is the engine's current queue");
+  g_cancel_all++; }
